@@ -1,4 +1,4 @@
-import Netpoll.Buf.Spec
+import Netpoll.Buf.Step
 import Driver.Lb
 /-! Spec oracle for C01: replays the op lines on the abstract FIFO queue (`Netpoll.Buf.Spec`) and judges
 (a) the implementation's reply lines and (b) the model (results and the abstraction relation
@@ -57,15 +57,14 @@ def lenOK (q : Q UInt8) (id : Nat) (dump : List (Nat × Nat × Nat)) : Bool :=
   | none => true
 
 /-- judge one single-buffer op.  Returns the verdict line. -/
-def judge1 (id : Nat) (op : Op UInt8) (mstep : Cfg → LB UInt8 → Option (LB UInt8 × Res UInt8))
-    (impl : String) : M String := do
+def judge1 (id : Nat) (op : Op UInt8) (impl : String) : M String := do
   let w ← get
   match w.spec.get? id, w.model.get? id with
   | some q, some b =>
     let inC := w.inC && Contract q op
     let (q', e) := specStep q op
     -- model side
-    let mres := if w.dead then none else mstep w.cfg b
+    let mres := if w.dead then none else b.step w.cfg op
     let (ir, idump) := splitReply impl
     let mut verdict := ""
     match mres with
@@ -100,41 +99,40 @@ def step (line impl : String) : M String := do
     return "new"
   | ["mal", id, n, seed] =>
     let d := genBytes (n! seed) (i! n).toNat
-    judge1 (n! id) (.malloc (i! n) d) (fun cfg b => b.malloc cfg (i! n) d) impl
+    judge1 (n! id) (.malloc (i! n) d) impl
   | ["wbin", id, n, seed, pcap] =>
     let p := genBytes (n! seed) (n! n)
-    judge1 (n! id) (.writeBinary p (n! pcap)) (fun cfg b => b.writeBinary cfg p (n! pcap)) impl
+    judge1 (n! id) (.writeBinary p (n! pcap)) impl
   | ["wstr", id, n, seed] =>
     let p := genBytes (n! seed) (n! n)
-    judge1 (n! id) (.writeBinary p (n! n)) (fun cfg b => b.writeBinary cfg p (n! n)) impl
+    judge1 (n! id) (.writeBinary p (n! n)) impl
   | ["wbyte", id, v] =>
-    judge1 (n! id) (.writeByte (UInt8.ofNat (n! v))) (fun cfg b => b.malloc cfg 1 [UInt8.ofNat (n! v)]) impl
+    judge1 (n! id) (.writeByte (UInt8.ofNat (n! v))) impl
   | ["wdir", id, n, seed, ecap, remain] =>
     let p := genBytes (n! seed) (n! n)
-    judge1 (n! id) (.writeDirect p (n! ecap) (i! remain)) (fun cfg b => b.writeDirect cfg p (n! ecap) (i! remain)) impl
-  | ["ack", id, n] => judge1 (n! id) (.mallocAck (i! n)) (fun _ b => b.mallocAck (i! n)) impl
-  | ["flush", id] => judge1 (n! id) .flush (fun cfg b => b.flush cfg) impl
-  | ["next", id, n] => judge1 (n! id) (.next (i! n)) (fun cfg b => b.next cfg (i! n)) impl
-  | ["peek", id, n] => judge1 (n! id) (.peek (i! n)) (fun cfg b => b.peek cfg (i! n)) impl
-  | ["skip", id, n] => judge1 (n! id) (.skip (i! n)) (fun _ b => b.skip (i! n)) impl
-  | ["rbin", id, n] => judge1 (n! id) (.readBinary (i! n)) (fun _ b => b.readBinary (i! n)) impl
-  | ["rstr", id, n] => judge1 (n! id) (.readBinary (i! n)) (fun _ b => b.readBinary (i! n)) impl
-  | ["rbyte", id] => judge1 (n! id) .readByte (fun _ b => b.readByte) impl
+    judge1 (n! id) (.writeDirect p (n! ecap) (i! remain)) impl
+  | ["ack", id, n] => judge1 (n! id) (.mallocAck (i! n)) impl
+  | ["flush", id] => judge1 (n! id) .flush impl
+  | ["next", id, n] => judge1 (n! id) (.next (i! n)) impl
+  | ["peek", id, n] => judge1 (n! id) (.peek (i! n)) impl
+  | ["skip", id, n] => judge1 (n! id) (.skip (i! n)) impl
+  | ["rbin", id, n] => judge1 (n! id) (.readBinary (i! n)) impl
+  | ["rstr", id, n] => judge1 (n! id) (.readBinary (i! n)) impl
+  | ["rbyte", id] => judge1 (n! id) .readByte impl
   | ["until", id, c] =>
-    judge1 (n! id) (.until (UInt8.ofNat (n! c))) (fun cfg b => b.until cfg (UInt8.ofNat (n! c))) impl
-  | ["read", id, n] => judge1 (n! id) (.readCopy (n! n)) (fun _ b => b.readCopy (n! n)) impl
-  | ["rel", id] => judge1 (n! id) .release (fun _ b => b.release) impl
-  | ["close", id] => judge1 (n! id) .close (fun _ b => b.close) impl
-  | ["len", id] => judge1 (n! id) .len (fun _ b => some (b, .num b.length)) impl
-  | ["mlen", id] => judge1 (n! id) .mallocLen (fun _ b => some (b, .num b.mallocSize)) impl
-  | ["bytes", id] => judge1 (n! id) .bytes (fun _ b => (b.bytes).map fun r => (b, r)) impl
-  | ["getbytes", id, k] => judge1 (n! id) (.getBytes (n! k)) (fun _ b => b.getBytes (n! k)) impl
+    judge1 (n! id) (.until (UInt8.ofNat (n! c))) impl
+  | ["read", id, n] => judge1 (n! id) (.readCopy (n! n)) impl
+  | ["rel", id] => judge1 (n! id) .release impl
+  | ["close", id] => judge1 (n! id) .close impl
+  | ["len", id] => judge1 (n! id) .len impl
+  | ["mlen", id] => judge1 (n! id) .mallocLen impl
+  | ["bytes", id] => judge1 (n! id) .bytes impl
+  | ["getbytes", id, k] => judge1 (n! id) (.getBytes (n! k)) impl
   | ["idx", id, c, skip] =>
-    judge1 (n! id) (.indexByte (UInt8.ofNat (n! c)) (n! skip))
-      (fun _ b => (b.indexByte (UInt8.ofNat (n! c)) (n! skip)).map fun i => (b, .num i)) impl
-  | ["cmax", id] => judge1 (n! id) .calcMaxSize (fun _ b => b.calcMaxSize.map fun n => (b, .num n)) impl
+    judge1 (n! id) (.indexByte (UInt8.ofNat (n! c)) (n! skip)) impl
+  | ["cmax", id] => judge1 (n! id) .calcMaxSize impl
   | ["rtail", id, ms] =>
-    judge1 (n! id) (.resetTail (n! ms)) (fun cfg b => (b.resetTail cfg (n! ms)).map fun b => (b, .unit)) impl
+    judge1 (n! id) (.resetTail (n! ms)) impl
   | ["book", id, bs, ms, n, seed] =>
     -- the implementation reports how much was booked: "ok k:<l>:<length>"
     match w.spec.get? (n! id), w.model.get? (n! id) with
@@ -144,13 +142,10 @@ def step (line impl : String) : M String := do
       let (il, ilen) : Nat × Nat := match ir.splitOn ":" with
         | ["ok k", l, len] => (l.toNat?.getD 0, len.toNat?.getD 0)
         | _ => (0, 0)
-      let mres := if w.dead then none else
-        match b.book w.cfg (n! bs) (n! ms) with
-        | none => none
-        | some (b, l) =>
-          match b.bookAck (genBytes (n! seed) (min (n! n) l)) with
-          | none => none
-          | some (b, _) => some (b, l)
+      let mres : Option (LB UInt8 × Nat) := if w.dead then none else
+        match b.step w.cfg (.bookAck (n! bs) (n! ms) (genBytes (n! seed) (n! n))) with
+        | some (b, .num l) => some (b, l.toNat)
+        | _ => none
       -- spec effect with the implementation's booked length
       let qi := q.received (genBytes (n! seed) (min (n! n) il))
       match mres with
